@@ -18,8 +18,38 @@ TRUSTED = B.TRUSTED
 ASSUMPTIONS = B.ASSUMPTIONS
 
 
+def sdv_register_scenario(rng):
+    """sdv Collector RegisterDatapoints with several entries in one request: a name mentioned twice (the first
+    mention registers it, the second finds it and changes nothing), a refused entry between valid ones, names that
+    exist already; ids and metadata read back through every API, a value published by the id just handed out"""
+    from .. import enc as E
+    L = [[H.PERM, 0] + E.s(H.ALL_SCOPE), [H.PERM, 0] + E.s("create:Vehicle.Reg read provide")]
+    for i in range(rng.randrange(0, 3)):
+        L.append([H.ADD, 0] + E.s("Vehicle.Old%d" % i) + [rng.choice([4, 10, 0]), rng.randrange(3), 0, 0, 0, 0])
+    L.append([H.DUMP])
+    names = ["Vehicle.Reg.A", "Vehicle.Reg.B", "Vehicle.Reg.C", "Vehicle.Old0", "Bad..Name", "Vehicle.Reg.D"]
+    for _ in range(rng.randrange(2, 5)):
+        k = rng.choice([2, 3, 3, 4])
+        pick = [rng.choice(names) for _ in range(k)]
+        if rng.random() < 0.7:
+            pick[-1] = pick[0]                    # the same name again, with other metadata
+        body = []
+        for nme in pick:
+            body += E.s(nme) + [rng.choice([10, 11, 0, 4, 5, 1]), rng.choice([0, 1, 2])]
+        L.append([H.SDVREG, rng.choice([0, 0, 1]), k] + body)
+        L.append([H.DUMP])
+        L.append([H.SDVMETA, 0, 0])
+        L.append([H.V2META, 0] + E.s("**"))
+        for i in range(rng.randrange(1, 3)):
+            sid = rng.randrange(0, 6)
+            L.append([H.SDVUPD, 0, 1, sid, 1] + rng.choice([E.val(E.F32, 0x3fc00000), E.val(E.STR, "x"), E.val(E.I32, 3)]))
+        L.append([H.DUMP])
+    return L
+
+
 def generate(rng, tier, n=None, **kw):
-    return B.generate(rng, tier, weights=WEIGHTS, n=n, **GEN_KW)
+    return B.generate(rng, tier, weights=WEIGHTS, n=n, **GEN_KW) + \
+        [("sreg%d" % i, sdv_register_scenario(rng)) for i in range(40 if tier == "quick" else 800)]
 
 
 GEN_KW = {}
